@@ -55,7 +55,7 @@ pub fn open_db(dir: &Path) -> Database {
 
 pub fn open_db_with(dir: &Path, buckets: u16) -> Database {
     let mut b = DatabaseBuilder::new();
-    b.segment_size_bytes(64 * 1024 * 1024)
+    b.segment_size_bytes(2 * 1024 * 1024)
         .total_buckets(buckets)
         .bucket_ids_from_range(0..buckets)
         .reader_threads(2)
